@@ -311,9 +311,12 @@ class PolynomialModel(Model):
 
     def _guess(self, x: sc.Variable, y: sc.Variable) -> dict[str, sc.Variable]:
         poly = np.polynomial.Polynomial.fit(x.values, y.values, deg=self.degree)
+        coef = poly.convert().coef
+        # `convert` drops trailing coefficients that are exactly zero;
+        # every parameter needs an initial value.
+        coef = np.pad(coef, (0, self.degree + 1 - len(coef)))
         return {
-            f'a{i}': sc.scalar(c, unit=y.unit / x.unit**i)
-            for i, c in enumerate(poly.convert().coef)
+            f'a{i}': sc.scalar(c, unit=y.unit / x.unit**i) for i, c in enumerate(coef)
         }
 
 
